@@ -71,9 +71,22 @@ def check(case):
     return check_model(case, s, dt, model, classes)
 
 
+from hypothesis import strategies as st
+
+
+@st.composite
+def many_steps(draw):
+    """Hundreds of steps (the quantifier says 'step count >= 1'): fine grids, ideal kinds."""
+    c = draw(procs.process_case(kinds=("ideal-iso", "ideal-noniso"), removal=(1e-7, 1e-4), max_steps=8))
+    c["steps"] = draw(st.sampled_from([200, 256, 257, 258, 300, 400]))
+    return c
+
+
 PARTS = [
     Part("ideal", lambda tier: procs.process_case(kinds=("ideal-iso", "ideal-noniso")), check, {"quick": 4000, "thorough": 100000},
          floor={"quick": 300, "thorough": 8000}),
+    Part("many-steps", lambda tier: many_steps(), check, {"quick": 96, "thorough": 2000}, floor={"quick": 10, "thorough": 200},
+         shrink={"quick": False, "thorough": True}),
     Part("non-ideal", lambda tier: procs.process_case(kinds=("nonideal-iso", "nonideal-noniso"), max_steps=6), check,
          {"quick": 320, "thorough": 6000}, floor={"quick": 30, "thorough": 500}, shrink={"quick": False, "thorough": True}),
 ]
